@@ -349,8 +349,9 @@ def normalise(side, const_types, adts):
                 n = adts.get(fsig)
                 if n is not None:
                     ns.add(n)
-            real = [x for x in term[1] if not re.match(r'(Box|Unique|NonNull)\.', x)]
-            if len(ns) == 1 and len(real) == 1:
+            # the innermost fixed-size array on the access path determines the length; the other tokens are the
+            # containers it was reached through
+            if len(ns) == 1:
                 term = ('const', ns.pop())
         out.append((g, term))
     side.terms = out
@@ -364,9 +365,17 @@ def array_fields(f):
         for v in a['vars']:
             for fd in v['fields']:
                 m = re.match(r'(?:std::boxed::Box<)?\[u8; (\d+)\]>?$', fd['ty'])
-                if m:
+                n = int(m.group(1)) if m else None
+                if n is None:
+                    # newtype over a fixed-size array (e.g. KeyId([u8; 8]))
+                    inner = f.adts.get(fd['ty'])
+                    if inner and inner['kind'] == 'Struct' and len(inner['vars']) == 1 and len(inner['vars'][0]['fields']) == 1:
+                        m2 = re.match(r'\[u8; (\d+)\]$', inner['vars'][0]['fields'][0]['ty'])
+                        if m2:
+                            n = int(m2.group(1))
+                if n is not None:
                     key = ('%s::%s.%s' % (nm, v['n'], fd['n'])) if a['kind'] == 'Enum' else ('%s.%s' % (nm, fd['n']))
-                    out[key] = int(m.group(1))
+                    out[key] = n
     return out
 
 
@@ -394,6 +403,10 @@ def compare(w, l):
         a = [(cnd, lp, t) for v, e, cnd, lp, t in iw if covers((v, e), key)]
         c = [(cnd, lp, t) for v, e, cnd, lp, t in il if covers((v, e), key)]
         arm = (key[0] or '*') + (('[' + ','.join(sorted(key[1])) + ']') if key[1] else '')
+        if any(t[0] == 'unk' for _, _, t in a + c):
+            # this arm contains a term the analysis cannot express: the arm is unanalysed, the other arms are still compared
+            undecided.append(dict(arm=arm, kind='unanalysed arm', writer=[str(t) for _, _, t in a if t[0] == 'unk'], announced=[str(t) for _, _, t in c if t[0] == 'unk']))
+            continue
 
         def split(items):
             cu = sum(t[1] for cond, lp, t in items if t[0] == 'const' and not cond and not lp)
